@@ -290,7 +290,9 @@ TXBad == /\ IsEvent("xbad") /\ UNCHANGED spVars /\ UNCHANGED snap0
 \* read-only calls: the document (and the shared defaults) are unchanged - the snapshot digest stays what it was after import
 TCall == /\ IsEvent("call") /\ UNCHANGED spVars /\ UNCHANGED snap0
          /\ Note(CallChecks(Ev) \o << <<"call.readonly", Ev.snap = snap0>> >>
-                 \o (IF "fresh" \in DOMAIN Ev THEN << <<"call.same_as_on_fresh_import", Ev.fresh>> >> ELSE <<>>))
+                 \o (IF "fresh" \in DOMAIN Ev THEN << <<"call.same_as_on_fresh_import", Ev.fresh>> >> ELSE <<>>)
+                 \* a read-only call leaves the process as it found it (the standard output it printed on is still open)
+                 \o (IF "intact" \in DOMAIN Ev THEN << <<"call.leaves_process_state_alone", Ev.intact>> >> ELSE <<>>))
 
 TNext == TBlank \/ TGlobal \/ THeader \/ TRow \/ TSurplus \/ TUnsupported \/ TEnd \/ TCall \/ TImportFailed
          \/ TTranspose \/ TConcat \/ TXHeader \/ TXRow \/ TXEnd \/ TXBad
